@@ -95,10 +95,18 @@ def gen_cases(tier, seed):
         if key in seen or len(f) > 300000:
             continue
         seen.add(key)
-        if tier == "quick" and len(seen) % 3 and len(f) > 2 and not (isinstance(f, str) and ('[]' in f[:12] or '{}' in f[:12] or len(f) > 1000)):
+        decimal_msg = isinstance(f, str) and any(a in f for a in ("SetChargingProfile", "RemoteStartTransaction", "GetCompositeSchedule"))
+        if tier == "quick" and len(seen) % 3 and len(f) > 2 and not decimal_msg and \
+                not (isinstance(f, str) and ('[]' in f[:12] or '{}' in f[:12] or len(f) > 1000)):
             continue
         hb = g.route("Heartbeat", ("ret", {"current_time": "t"}))
-        cases.append(("1.6", [hb], ['[2,"h0","Heartbeat",{}]', f, '[2,"h1","Heartbeat",{}]'], "closed", False))
+        rts = [hb]
+        if decimal_msg:
+            # with a handler for the decimal-validated action, so that the frame gets as far as validation
+            for a in ("SetChargingProfile", "RemoteStartTransaction"):
+                if a in f:
+                    rts = [hb, g.route(a, ("ret", {"status": "Accepted"}))]
+        cases.append(("1.6", rts, ['[2,"h0","Heartbeat",{}]', f, '[2,"h1","Heartbeat",{}]'], "closed", False))
     # payloads nested deeper than the recursive key conversion can follow but within what json.loads accepts: a
     # schema-valid CALL (free-form customData), a CALL on a validation-skipping route, and a CALL that validation
     # rejects (its CALLERROR quotes the payload); none of them may end the loop.  Not given to the model (the
